@@ -352,6 +352,19 @@ func init() {
 				items = append(items, it)
 			}
 		}
+		// every discriminator key twice, with different content: a table that hands out one shared instance for some key
+		// (instead of a fresh object per look-up) is only seen when two messages with THAT key are alive at the same time
+		for _, k := range keyedTypes() {
+			for rep := 0; rep < 2; rep++ {
+				v := g.msgWithKey(k.Ty, k.E, true)
+				r := goEnc(v, nil, BufMode{})
+				it := item{v: v, want: r}
+				if r.Class == "ok" {
+					it.dec = goDec(k.Ty, r.Appended, BufMode{})
+				}
+				items = append(items, it)
+			}
+		}
 		// values whose encode fails part-way: a failed encode in one goroutine must not leak into anybody's later encode
 		nFail := 0
 		for _, t := range schema.Types {
